@@ -2,6 +2,7 @@ package main
 
 import (
 	"fmt"
+	"sort"
 	"strings"
 	"sync"
 
@@ -280,6 +281,74 @@ func (r *smRunner) hop() {
 	}
 }
 
+// query: the read-only queries of the seat manager (GetSeat, GetSeats, GetActiveSeats, GetAvailableSeats, GetAvailableSeatCount,
+// GetNormalizeSeats, the counters, Dealer / SmallBlind / BigBlind, GetPlayableSeats once a button is set): no seat, flag or position
+// may change, nothing may panic; and the two that have a specification are checked against it: the available seats are exactly the
+// empty non-reserved ones (active ones first), the count is the number of active ones.
+func (r *smRunner) query() {
+	if r.dead || r.m == nil {
+		return
+	}
+	pre := snapSM(r.m)
+	var act, alt []int
+	var cnt int
+	_, pan := safely(func() error {
+		for i := 0; i < r.max; i++ {
+			_ = r.m.GetSeat(i)
+		}
+		_ = r.m.GetSeat(-1)
+		_ = r.m.GetSeat(r.max)
+		_ = r.m.GetSeats()
+		_ = r.m.GetActiveSeats()
+		act, alt = r.m.GetAvailableSeats()
+		cnt = r.m.GetAvailableSeatCount()
+		if r.max > 0 {
+			_ = r.m.GetNormalizeSeats(r.hops % r.max)
+		}
+		_ = r.m.GetPlayableSeatCount()
+		_ = r.m.GetPlayerCount()
+		_ = r.m.GetSeatCount()
+		if r.m.Dealer() != nil {
+			_ = r.m.GetPlayableSeats()
+		}
+		_, _ = r.m.SmallBlind(), r.m.BigBlind()
+		return nil
+	})
+	if pan {
+		r.dead = true
+		r.o.Emit("sm query", "sm err=panic")
+		r.V("C18", "no_panic", "a read-only query of the seat manager panicked")
+		return
+	}
+	post := snapSM(r.m)
+	r.o.Emit("sm query", smObs(r.m, "none", "-"))
+	r.o.Count("sm.ops.query")
+	same := post.dealer == pre.dealer && post.sb == pre.sb && post.bb == pre.bb && len(post.seats) == len(pre.seats)
+	for i := 0; same && i < len(pre.seats); i++ {
+		same = pre.seats[i] == post.seats[i]
+	}
+	if !same {
+		r.V("C18", "query_no_effect", fmt.Sprintf("read-only queries changed the seat manager: %+v -> %+v", pre, post))
+		r.V("C08", "query_no_effect", "read-only queries changed seats or positions")
+		r.V("C17", "query_no_effect", "read-only queries changed seats or the button")
+	}
+	wantAct, wantAlt := []int{}, []int{}
+	for i, s := range pre.seats {
+		if s.pid < 0 && !s.reserved {
+			if s.active {
+				wantAct = append(wantAct, i)
+			} else {
+				wantAlt = append(wantAlt, i)
+			}
+		}
+	}
+	sort.Ints(act) // the lists come out in the order of a Go map iteration
+	sort.Ints(alt)
+	if fmt.Sprint(act) != fmt.Sprint(wantAct) || fmt.Sprint(alt) != fmt.Sprint(wantAlt) || cnt != len(wantAct) {
+		r.V("C18", "available_seats", fmt.Sprintf("GetAvailableSeats() = %v / %v, GetAvailableSeatCount() = %d; the empty non-reserved seats are %v (active) and %v (inactive)", act, alt, cnt, wantAct, wantAlt))
+	}
+}
+
 func (r *smRunner) exec(f []string) {
 	if r.dead || r.m == nil {
 		return
@@ -287,6 +356,13 @@ func (r *smRunner) exec(f []string) {
 	if f[0] == "hop" {
 		r.hop()
 		return
+	}
+	if f[0] == "query" {
+		r.query()
+		return
+	}
+	if r.hopRng != nil && r.hopRng.Chance(0.03) {
+		r.query()
 	}
 	if r.hopRng != nil && ((f[0] == "next" && r.hopRng.Chance(0.12)) || r.hopRng.Chance(0.01)) {
 		r.hop()
